@@ -108,6 +108,112 @@ def build_arg(name, td, inputs):
     raise ValueError(f"cannot build argument of kind {k}")
 
 
+def random_arg(rnd, td, depth=0):
+    """a random concrete value of the described shape (small sizes, boundary values favoured)"""
+    import collections
+    k = td.kind
+    if k == "int":
+        lo, hi = td.args
+        cands = [0, 1, 2, 7, 8, 63, 64, 255, 256, 4095, 65535, 65536, 2 ** 31, 2 ** 32 - 1, 2 ** 32, 2 ** 63, 2 ** 64 - 1, 2 ** 64, -1, -2]
+        if lo is not None:
+            cands += [lo, lo + 1]
+        if hi is not None:
+            cands += [hi, hi - 1]
+        cands = [c for c in cands if (lo is None or c >= lo) and (hi is None or c <= hi)]
+        if rnd.random() < 0.5 and cands:
+            return rnd.choice(cands)
+        a = lo if lo is not None else -(2 ** 16)
+        b = hi if hi is not None else (a + 2 ** 20)
+        return rnd.randint(a, b)
+    if k == "bool":
+        return rnd.random() < 0.5
+    if k in ("bytes", "bytearray"):
+        lo, hi = td.args
+        lo = lo or 0
+        n = lo + rnd.choice([0, 0, 1, 2, 3, 5, 8, 13, 21, 40])
+        if hi is not None:
+            n = min(n, hi)
+        raw = bytes(rnd.choice([0, 0, 1, 0x20, 0x24, 0x26, 0x7F, 0x80, 0xFF, rnd.randrange(256)]) for _ in range(n))
+        return raw if k == "bytes" else bytearray(raw)
+    if k == "enum":
+        return rnd.choice(list(td.args[0]))
+    if k == "choice":
+        return rnd.choice(list(td.args))
+    if k == "optional":
+        return None if rnd.random() < 0.3 else random_arg(rnd, td.args[0], depth + 1)
+    if k == "list" and td.args[1] is None:
+        return [rnd.randint(-3, 300) for _ in range(rnd.randrange(0, 5))]
+    if k == "list":
+        return [random_arg(rnd, td.args[0], depth + 1) for _ in range(rnd.randint(0, td.args[1]))]
+    if k == "tuple":
+        return tuple(random_arg(rnd, t, depth + 1) for t in td.args)
+    if k == "pairlist":
+        return [(rnd.choice([0, 1, 255, 2 ** 32 - 1, 2 ** 32, rnd.randrange(2 ** 20)]), rnd.randrange(2 ** 33)) for _ in range(rnd.randrange(0, 5))]
+    if k == "byteslist":
+        return [bytes(rnd.randrange(256) for _ in range(rnd.randrange(0, 9))) for _ in range(rnd.randrange(0, 4))]
+    if k == "chunks":
+        return collections.deque(bytearray(rnd.randrange(256) for _ in range(rnd.randrange(0, 12))) for _ in range(rnd.randrange(0, 4)))
+    if k == "str":
+        alphabet = ["a", "b", "/", ".", "\u00e4", "\u20ac", "\U0001f600"]
+        n = rnd.randrange(0, 6)
+        return "".join(rnd.choice(alphabet) for _ in range(n))
+    if k == "text":
+        return "".join(rnd.choice("0123456789\n ax-") for _ in range(rnd.randrange(0, 8)))
+    if k == "real":
+        return rnd.choice([0.0, 0.001, 1.5, 86399.999, 1e9 + 0.0005, rnd.random() * 1e6])
+    raise ValueError(f"cannot draw a random value of kind {k}")
+
+
+def fuzz_one(req):
+    """run one harness natively on `count` seeded random inputs; report the labels that evaluated False (with the input)"""
+    import inspect, random, time
+    import pyvc_spec as ps
+    f = find_harness(req["module"], req["name"])
+    rnd = random.Random(req.get("seed", 0))
+    sig = inspect.signature(f).parameters
+    t0 = time.time()
+    ran = skipped = 0
+    failed = {}
+    escaped = None
+    import signal
+
+    class _Slow(Exception):
+        pass
+
+    def _alarm(signum, frame):
+        raise _Slow()
+    signal.signal(signal.SIGALRM, _alarm)
+    for _ in range(int(req.get("count", 100))):
+        if time.time() - t0 > float(req.get("budget_s", 10)):
+            break
+        try:
+            args = [random_arg(rnd, p.annotation) for p in sig.values()]
+        except ValueError as e:
+            return {"unsupported": str(e)}
+        ps._INPUTS = {}
+        ps._BUILD_ARG = build_arg
+        rec = ps.start_recording()
+        signal.alarm(3)
+        try:
+            f(*args)
+            ran += 1
+        except ps.PreconditionFalse:
+            skipped += 1
+        except (_Slow, MemoryError):     # a random input that makes the real code slow or huge (e.g. 2**(2**64)): not a verdict
+            skipped += 1
+            rec.clear()
+        except Exception as e:  # noqa
+            ran += 1
+            if escaped is None:
+                escaped = {"class": type(e).__name__, "text": str(e)[:200], "args": [repr(a)[:200] for a in args]}
+        finally:
+            signal.alarm(0)
+        for l, ok in rec:
+            if not ok and l not in failed:
+                failed[l] = [repr(a)[:300] for a in args]
+    return {"ran": ran, "precondition_false": skipped, "failed": failed, "escaped": escaped, "secs": round(time.time() - t0, 2)}
+
+
 def find_harness(module, name):
     import pyvc_spec as ps
     mod = importlib.import_module(module)
@@ -264,6 +370,20 @@ def main():
             sys.exit(1)
         print("not reproduced")
         sys.exit(0)
+    if argv and argv[0] == "fuzz":
+        import resource
+        resource.setrlimit(resource.RLIMIT_AS, (6 * 1024 ** 3, 6 * 1024 ** 3))
+        for line in sys.stdin:
+            line = line.strip()
+            if not line:
+                continue
+            try:
+                ans = fuzz_one(json.loads(line))
+            except Exception as e:  # noqa
+                ans = {"error": f"{type(e).__name__}: {e}", "trace": traceback.format_exc(limit=6)[-1200:]}
+            sys.stdout.write(json.dumps(ans) + "\n")
+            sys.stdout.flush()
+        return
     if argv and argv[0] == "run":
         for line in sys.stdin:
             line = line.strip()
